@@ -135,10 +135,11 @@ def run(ctx):
                 inner = any(isinstance(p, (ast.For, ast.While)) and any(x is n for x in ast.walk(p)) for p in ast.walk(st) if p is not st or isinstance(st, (ast.For, ast.While)))
                 if not inner and early is None:
                     early = k
-    ok = rec_idx is not None and first_append is not None and rec_idx < first_append and (early is None or early > rec_idx) and rec_val == "len(new_commands)"
+    ok = rec_idx is not None and first_append is not None and rec_idx < first_append and early is None and rec_val == "len(new_commands)"
     ctx.check("C08.I", "rewrite-loop:index-recorded-before-expansion", ok,
               f"index_changes[{ivar}] is recorded at statement {rec_idx} (value `{rec_val if rec_idx is not None else None}`), the expansion is appended at statement {first_append}, "
-              f"an early exit of the iteration at {early}; the map must be recorded unconditionally as len(new_commands) before the expansion is appended", repo.loc(m, rw),
+              f"an early exit (continue/break/return) of the iteration at statement {early}; the map must be recorded unconditionally as len(new_commands) before the expansion is appended, "
+              f"and no iteration may leave the loop body early (the instruction would be neither kept nor expanded)", repo.loc(m, rw),
               sample={"record_at": rec_idx, "append_at": first_append, "early_exit": early})
     # every instruction is appended exactly once: if/elif/else chain where every arm appends
     chain = [st for st in rw.body if isinstance(st, ast.If) and any(isinstance(n, ast.AugAssign) and A.norm(n.target) == "new_commands" for n in ast.walk(st))]
@@ -287,6 +288,7 @@ SEEDS = [
     dict(id="c08-skip-debug-continue", file=TP, expect="C08.I", construct="index-recorded", old="            for op in instr.operands:\n                # update used registers", new="            if not instr.operands:\n                new_commands += [instr]\n                continue\n            for op in instr.operands:\n                # update used registers"),
     dict(id="c08-orig-stale-value", file=TP, expect="C08.V", construct="other-write-invalidates", old="                    self._register_values.pop(reg, None)\n", new="                    pass\n"),
     dict(id="c08-set-not-tracked", file=TP, expect="C08.V", construct="set-updates-value", old="                    self._register_values[reg] = instr.imm", new="                    self._register_values[reg] = Immediate(0)"),
+    dict(id="c08-drop-redundant-set", file=TP, expect="C08.I", construct="index-recorded", old="            index_changes[i] = len(new_commands)\n", new="            index_changes[i] = len(new_commands)\n            if isinstance(instr, core.SetInstruction) and instr.imm.value == 1337:\n                continue\n"),
 ]
 BENIGN = [
     dict(id="c08-benign-del", file=TP, old="                    self._register_values.pop(reg, None)\n", new="                    if reg in self._register_values:\n                        del self._register_values[reg]\n"),
